@@ -545,7 +545,8 @@ func (x *g) numExpr(d int) expr {
 	case 7:
 		if x.es(2016) {
 			l, r := x.numExpr(d-1), x.numLeaf()
-			if l.p == 14 && (strings.HasPrefix(l.s, "++") || strings.HasPrefix(l.s, "--")) && x.guard("noPrefixUpdateExpBase") {
+			if (l.p == 14 && (strings.HasPrefix(l.s, "++") || strings.HasPrefix(l.s, "--")) || l.p <= 3 && (strings.Contains(l.s, "++") || strings.Contains(l.s, "--"))) && x.guard("noPrefixUpdateExpBase") {
+				// also through a conditional or logical expression that may be folded to its prefix update operand
 				x.prog.Excluded["noPrefixUpdateExpBase"]++
 				return l
 			}
